@@ -14,8 +14,11 @@ CLAIMED = {
         text="Theorems for all expression trees of any size/depth over any number algebra (and at binary64): the model's "
              "post-processing + recursive-descent parser + interpreter read the token rendering of a tree (explicit, "
              "juxtaposed, leading sign, detached signs, assignment rhs) back as that tree and compute its value by the usual "
-             "rules, division by zero giving 0. The text->token step and the model-vs-code tie are a per-run differential "
-             "check (model executed by vm_compute against the Rust crate on generated renderings, bit-exact).",
+             "rules, division by zero giving 0. Lexical step, proved in part: on EVERY line over the arithmetic alphabet only the "
+             "number, whitespace and operator parsers contribute (sound regex analysis over the regenerated regexes) and "
+             "`d1 op d2` with any blanks lexes to exactly [number; operator; number] for all digit strings; the general "
+             "text->token step and the model-vs-code tie are a per-run differential check (model executed by vm_compute against "
+             "the Rust crate on generated renderings under two separator conventions, bit-exact).",
         design="DESIGN.md section 7 C02", technique="Coq proof by induction on expression trees + model/implementation correspondence"),
     "C10": dict(
         text="Theorems for all integer counts and all second counts: 'N unit' is N times the unit length with 12 months = "
@@ -132,12 +135,15 @@ CLAIMED = {
         text="Theorems for ALL texts, languages and configurations: a returning evaluation has status true and exactly one slot "
              "per line (lines split on LF/CRLF), it is the in-order fold of the line evaluator (slot i = line i under the "
              "variables of the lines before; an error or empty slot never stops the fold), for execute and for re-used sessions; "
-             "the recursive-descent parser terminates on EVERY token list within its fuel (so its out-of-fuel outcome, the model's "
-             "stand-in for a hang, is unreachable); the rewrite loops terminate (Proofs/C01_Rewrite.v, measure: active typed "
-             "tokens; side condition on the regenerated patterns); an unknown language is a language without tables. Freedom "
-             "from the remaining panic sites is NOT a theorem: it is decided per run by the differential check on a malformed-"
-             "input stream (panics and watchdog time-outs of the crate are violations with that input).",
-        design="DESIGN.md section 7 C01", technique="Coq proof (fold refinement, strong induction on token-list length for parser termination, measure argument for rewrite loops) + model/implementation correspondence on a malformed-input stream"),
+             "the recursive-descent parser terminates on EVERY token list within its fuel; the three rewrite loops terminate "
+             "(measure: active typed tokens; side condition on the regenerated patterns, preserved by every setter); panic "
+             "freedom of everything AFTER the lexer up to one residual site (the highlight drain, 1701): index ranges of matches, "
+             "the field unwraps of all 20 rule functions on every pattern of the regenerated rule table, unit-chain key "
+             "arithmetic, interpreter and formatter, for the default configuration and every configuration reachable through "
+             "the setters, under explicit hypotheses (nested evaluator returns, clock instants within a bound); blank lines of any "
+             "length evaluate to nothing. Lexer panic freedom is NOT a theorem: it is decided per run by the differential check "
+             "on a malformed-input stream (panics and watchdog time-outs of the crate are violations with that input).",
+        design="DESIGN.md section 7 C01", technique="Coq proof (fold refinement, strong induction for parser termination, measure argument for rewrite loops, stage-wise panic-freedom invariants, sound regex analysis) + model/implementation correspondence on a malformed-input stream"),
     "C07": dict(
         text="Theorems for any number algebra, every value, separator strings, digit count and both flags: format_number = "
              "sign ++ group3(integer digits) ++ [decimal separator ++ fraction] with the fraction omitted exactly when removal is "
@@ -163,8 +169,8 @@ CLAIMED = {
              "the sequence of (token type, status) matters - update_token_variables, the unit loop, the rule loop, all 20 rule "
              "functions, post-processing, parser and interpreter give the same result on position-relabelled inputs, for ALL "
              "lines; every comparison of connectives, rule words, variable names, currencies, aliases, months and zones is "
-             "invariant under letter case (same to_lowercase / to_uppercase image). Bounded / computed: blank-only lines up to 80 "
-             "blanks, comment-only families, about 200 original/rewritten line pairs through the whole pipeline. The lexical step "
+             "invariant under letter case (same to_lowercase / to_uppercase image); a line of blanks of ANY length produces no "
+             "token and evaluates to nothing (sound regex analysis). Computed: comment-only families, about 200 original/rewritten line pairs through the whole pipeline. The lexical step "
              "(inserting blanks keeps the lexed token sequence) is NOT proved; it is decided per run by the differential check "
              "evaluating each line and its rewritings (blanks, comments, case per keyword class). One listed known finding "
              "(sign read into a literal changes which rule matches).",
